@@ -1146,15 +1146,58 @@ def _process_state(fa, name):
     return False
 
 
+def _branch_tests_of(fa, node_ids):
+    """Branch tests that decide whether one of the CFG nodes is reached: one branch can reach it, the other cannot."""
+    cfg = fa.cfg
+    want = set(node_ids)
+    out = []
+    live = cfg.reachable_nodes()
+    for n in cfg.nodes:
+        if n.kind != "test" or n.id not in live or n.ast is None or n.id in want:
+            continue
+        br = {}
+        for (d, l) in cfg.succ[n.id]:
+            if l in ("T", "F"):
+                br.setdefault(l, []).append(d)
+        if set(br) != {"T", "F"}:
+            continue
+        a, b = bool(cfg.reach(br["T"]) & want), bool(cfg.reach(br["F"]) & want)
+        if a != b:
+            out.append(n)
+    return out
+
+
 def _guard_deps(ck, fa, expr, at, depth=2, _seen=None):
-    """What the value of a guard depends on, helpers of the module included: the dependency atoms of the
-    expression, plus — for a call of a function of the same module — those of everything that function can
-    return."""
+    """What the value of a guard depends on: the dependency atoms of the expression; for a local that is given
+    its value in several places (a verdict flag: `ok = False` here, `ok = not q()` there) also what the branch
+    tests that choose between those places depend on; and — for a call of a function of the same module — what
+    everything that function can return depends on."""
     seen = _seen if _seen is not None else set()
     try:
         out = set(fa.df.deps(expr, at))
     except Exception:  # noqa - an expression the dependency closure cannot place
         return {"unknown:"}
+    # control dependence of multiply-defined locals
+    todo = [(x.id, at) for x in ast.walk(expr) if isinstance(x, ast.Name) and isinstance(x.ctx, ast.Load)]
+    done = set()
+    while todo and len(done) < 40:
+        name, n = todo.pop()
+        if (name, n) in done or not fa.df.is_local(name):
+            continue
+        done.add((name, n))
+        ds = [d for d in fa.df.reaching(n, name) if d.kind != "param"]
+        for d in ds:
+            if d.value is not None and d.kind in ("assign", "aug", "unpack"):
+                todo += [(x.id, d.node) for x in ast.walk(d.value) if isinstance(x, ast.Name) and isinstance(x.ctx, ast.Load)]
+        if len(ds) < 2:
+            continue
+        for d in ds:
+            for t in _branch_tests_of(fa, [d.node]):
+                key = ("ctl", t.id)
+                if key in seen:
+                    continue
+                seen.add(key)
+                out |= _guard_deps(ck, fa, t.ast, t.id, depth, seen)
     if depth <= 0:
         return out
     names = {a[5:] for a in out if a.startswith("call:")}
@@ -1167,6 +1210,8 @@ def _guard_deps(ck, fa, expr, at, depth=2, _seen=None):
                     if r.value is not None:
                         for i in fh.nodes(r)[:1]:
                             out |= _guard_deps(ck, fh, r.value, i, depth - 1, seen)
+                            for t in _branch_tests_of(fh, [i]):
+                                out |= _guard_deps(ck, fh, t.ast, t.id, depth - 1, seen)
                 # a generator helper answers through what it yields
                 for y in A.walk_body(h.node):
                     if isinstance(y, ast.Yield) and y.value is not None and fh.nodes(y):
@@ -1229,10 +1274,18 @@ def check_attempt_not_remembered(ck):
     for q in sorted(targets):
         fa = fas[q]
         for (test, at, _when) in _attempt_guards(fa, targets[q]):
-            for atom in _atoms_of(test):
+            try:
+                full = fa.expand(test, at)         # a flag local is judged by the atoms of what it was given
+            except Exception:  # noqa - an expression the expander cannot place
+                full = test
+            atoms = _atoms_of(full) if len(_atoms_of(full)) > len(_atoms_of(test)) else _atoms_of(test)
+            for atom in atoms:
                 if isinstance(atom, ast.Constant):
                     continue
                 deps = _guard_deps(ck, fa, atom, at)
+                if "unknown:" in deps:
+                    from ..loader import AnalysisError
+                    raise AnalysisError("%s: cannot tell what the condition `%s` of the write attempt depends on" % (fa.qual, A.short(atom, 60)))
                 state = sorted(a[7:] for a in deps if a.startswith("global:") and _process_state(fa, a[7:]))
                 if state:
                     ok, msg = False, ("whether a computed result is written to the store depends on `%s`, state of the process that outlives the "
@@ -1244,7 +1297,7 @@ def check_attempt_not_remembered(ck):
                                       "forever" % A.short(atom, 60))
                 else:
                     ok, msg = True, "the write is skipped only on the store's own answer"
-                ck.ob(R, fa.key(atom, "attempt-guard"), ok, msg, fa.where(atom))
+                ck.ob(R, fa.key(test, "attempt-guard:" + A.norm(atom)[:80]), ok, msg, fa.where(test))
 
 
 def _requires_every(fa, sources):
